@@ -13,7 +13,7 @@ PROPS = {
                 preds=["ScalarExact", "FlagSemantics", "CalledExact"]),
     "C02": dict(families=["multi-ss", "multi-is", "multi-fs", "multi-sm", "setvalue"], lens={"vals", "err", "rest", "seterr"}, rand=("C02", 6000, 150000),
                 preds=["IntakeCount", "StoredInOrder", "MapStored"]),
-    "C03": dict(families=["conserve", "conserve-n", "deep-ro"], lens={"rest", "aliased"}, rand=("C03", 6000, 150000),
+    "C03": dict(families=["conserve", "conserve-n", "deep-ro", "wrapper"], lens={"rest", "aliased"}, rand=("C03", 6000, 150000),
                 preds=["Conservation", "UnknownNeverDropped"]),
     "C04": dict(families=["term", "scalar-s"], lens={"rest", "vals", "called", "err"}, rand=("C04", 6000, 150000),
                 preds=["TerminatorRoles", "Frozen (action property)"]),
